@@ -112,6 +112,10 @@ func corpus(c *ctx, r *fw.Rand) pkt {
 			q = q[:n]
 		}
 		m := rfc.ICMP{Type: 3, Code: uint8(r.Intn(6)), Rest: [4]byte{0, 0, byte(r.U32()), byte(r.U32())}, Payload: q}
+		if r.Bool() { // fragmentation needed with boundary next-hop MTUs
+			mtu := []uint16{0, 1, 20, 39, 40, 41, 48, 52, 60, 68, 100, 576, 1500, 65535}[r.Intn(14)]
+			m.Code, m.Rest = 4, [4]byte{0, 0, byte(mtu >> 8), byte(mtu)}
+		}
 		return pkt{rfc.EthIPv4, ip4(c, rfc.ProtoICMP, m.BytesV4(true), uint16(r.U32()))}
 	case 13: // ICMPv6 error / packet too big
 		inner := rfc.TCP{SrcPort: c.ConnL, DstPort: c.ConnP, Seq: c.ConnAck, Flags: rfc.ACK}
